@@ -24,19 +24,21 @@ fn parse_number_case(ilen: usize, flen: usize) {
 /// the zero-skipping loops of code and specification on one path each).
 fn parse_number_case_z(ilen: usize, flen: usize, z: usize) {
     let int: [u8; 24] = any_digits();
-    let frac: [u8; 24] = any_digits();
+    let mut frac: [u8; 24] = any_digits();
     let e: i32 = kani::any();
     kani::assume(ilen == 0 || int[0] != b'0');
     if z != usize::MAX {
+        // concrete zero prefix and a concrete first significant digit ('7'): one control path
+        // through the zero-skipping loops; every other digit stays symbolic
         let mut k = 0;
         while k < 24 {
             if k < z && k < flen {
-                kani::assume(frac[k] == b'0');
+                frac[k] = b'0';
             }
             k += 1;
         }
         if z < flen {
-            kani::assume(frac[z] != b'0');
+            frac[z] = b'7';
         }
     }
     let num = parse_number(int[..ilen].iter(), frac[..flen].iter(), e);
